@@ -67,19 +67,26 @@ Theorem C05_put_appends_to_own_bucket :
   bucket (put hash w s) p = if prefix s =? p then bucket w p ++ [h64 hash s] else bucket w p.
 Proof. exact bucket_put. Qed.
 
+(* the forced hypothesis on bucket populations holds for every multiset of fewer than 2^29 signatures *)
+Theorem C05_small_of_few :
+  forall (hash : list N -> N) (sigs : list (list N)),
+  N.of_nat (length sigs) < 536870912 ->
+  forall p, N.of_nat (length (clean (bucket (puts hash sigs) p))) < 536870912.
+Proof. exact small_of_few. Qed.
+
 (* sealing can only fail on metadata the format refuses (current format: > 255 pairs or a string > 255 bytes) *)
 Theorem C05_seal_succeeds :
   forall (ver : version) (m : meta) (w : wstate),
   (exists mb, enc_meta ver m = Some mb) -> exists f, seal ver m w = Ok f.
 Proof. exact seal_succeeds. Qed.
 
-(* the model's fuel is never the reason for an answer: the search over a uint32 count ends within 64 probes *)
-Theorem C05_search_fuel_enough :
-  forall (get : N -> option N) (n x : N), n < 18446744073709551616 ->
-  bsearch search_fuel get n x 0 <> OutOfFuel.
-Proof.
-  intros get n x Hn. apply bsearch_fuel_enough. change (N.of_nat search_fuel) with 64. lia.
-Qed.
+(* the model's fuel is never the reason for an answer: on ANY file of bytes (well-formed or not), opening
+   and querying never ends in OutOfFuel (header loops consume bytes; the search over a uint32 count ends
+   within 64 probes) *)
+Theorem C05_fuel_never_decides :
+  forall (hash : list N -> N) (ver : version) (f s : list N),
+  Forall (fun b => b < 256) f -> file_has hash ver f s <> OutOfFuel.
+Proof. exact file_has_fuel_enough. Qed.
 
 (* the checker's memoised hash is xxh64 *)
 Theorem C05_checker_hash_is_xxh64 :
@@ -103,11 +110,13 @@ Definition ex_meta : meta := [([101; 112], [49; 50; 51])].
 
 Example C05_nonvacuous_hypotheses :
   Forall wf_sig ex_sigs /\
+  (forall p, N.of_nat (length (clean (bucket (puts xxh64 ex_sigs) p))) < 536870912) /\
   (exists f, seal V1 ex_meta (puts xxh64 ex_sigs) = Ok f) /\ (exists f, seal V2 ex_meta (puts xxh64 ex_sigs) = Ok f) /\
   N.of_nat (length (enc_meta1 ex_meta)) < 2147483648.
 Proof.
-  split; [|split; [|split]].
+  split; [|split; [|split; [|split]]].
   - apply wf_sigs_sound. vm_compute. reflexivity.
+  - apply small_of_few. vm_compute. reflexivity.
   - apply seal_succeeds. eexists. reflexivity.
   - apply seal_succeeds. eexists. vm_compute. reflexivity.
   - vm_compute. reflexivity.
@@ -126,6 +135,7 @@ Print Assumptions C05_positive_char.
 Print Assumptions C05_writer_agrees.
 Print Assumptions C05_writer_has_char.
 Print Assumptions C05_put_appends_to_own_bucket.
+Print Assumptions C05_small_of_few.
 Print Assumptions C05_seal_succeeds.
-Print Assumptions C05_search_fuel_enough.
+Print Assumptions C05_fuel_never_decides.
 Print Assumptions C05_checker_hash_is_xxh64.
